@@ -1,5 +1,6 @@
 // C09 (signature half) harness: command definitions -> the REAL Command::getSignature() values.
-// usage: vc09 sig      one definition per stdin line, prints the 64-bit signature (16 hex digits)
+// usage: vc09 sig        one definition per stdin line, prints the 64-bit signature (16 hex digits)
+//        vc09 configure  one definition (ordered keys) per line, prints the members the real loader leaves in the command
 //
 // line:  <tool> <name> <inputs> <outputs> <ami> <amo> <aood> <args> <envkeys> <envvals> <deps> <style> <inh> <csi> <sig>
 //   tool      shell | phony        (the other tools and node rules: see renderOther below)
@@ -24,9 +25,31 @@
 #include "llbuild/Basic/Hashing.h"
 #include "llvm/Support/raw_ostream.h"
 #include "llvm/Support/MemoryBuffer.h"
+#include "llvm/ADT/Optional.h"
+#include "llvm/ADT/SmallPtrSet.h"
+#include "llvm/ADT/SmallString.h"
+#include "llvm/ADT/SmallVector.h"
+#include "llvm/ADT/StringRef.h"
+#include "llbuild/BuildSystem/BuildSystemHandlers.h"
+#include "llbuild/Basic/ShellUtility.h"
 
+#include <atomic>
 #include <memory>
 #include <mutex>
+#include <unistd.h>
+
+// Mode `configure` compares the data members of the loaded command one by one with the Lean model.  The members of
+// ExternalCommand / ShellCommand are private (most of them by the default access of `class`), so these two headers - and
+// only these: everything they include has been included above - are read with every member accessible.  Access control
+// does not take part in the object layout or in name mangling (Itanium ABI), the library is the unmodified one.
+#define class struct
+#define private public
+#define protected public
+#include "llbuild/BuildSystem/ExternalCommand.h"
+#include "llbuild/BuildSystem/ShellCommand.h"
+#undef class
+#undef private
+#undef protected
 
 using namespace llvm;
 using namespace llbuild;
@@ -303,6 +326,150 @@ void mode_sig(bool showYaml) {
   }
 }
 
+// ---- mode `configure`: definition (ordered keys) -> the members the REAL loader leaves in the command object -----------
+// line:   <cwd> <tool> <name> <entry> ...          (cwd: hex; the process chdir()s there, `-` = stay)
+//   entry  i=<hexlist>  inputs      o=<hexlist>  outputs     d=<hex>  description
+//          s:<key>=<hex>  scalar attribute    l:<key>=<hexlist>  list attribute    m:<key>=<k:v,k:v|.>  map attribute
+// The keys are written in this order after `tool:` (repeated keys are repeated), the file is loaded by the real BuildFile
+// loader, the command is observed in commandPreparing.  Output: see printObservation; the Lean driver mode `c09configure`
+// prints the same line from `BSAttrs.run`.
+struct ObsDelegate : public SigDelegate {
+  std::string tool;
+  std::string obs;
+  std::vector<std::string> errs;
+  void error(StringRef, const Token&, const Twine& message) override {
+    std::unique_lock<std::mutex> l(mu);
+    errs.push_back(message.str());
+  }
+  static std::string names(const std::vector<BuildNode*>& v) {
+    std::vector<std::string> l;
+    for (auto* n : v) l.push_back(n->getName().str());
+    return vh::hexListEncode(l);
+  }
+  template <class V> static std::string strs(const V& v) {
+    std::vector<std::string> l;
+    for (auto& x : v) l.push_back(std::string(x.data(), x.size()));
+    return vh::hexListEncode(l);
+  }
+  void commandPreparing(Command* c) override {
+    std::unique_lock<std::mutex> l(mu);
+    if (c->getName() != wanted || seen) return;
+    seen = true;
+    std::string o;
+    // SymlinkCommand::getSignature / getVerboseDescription and MkdirCommand::getVerboseDescription read outputs[0]
+    bool needsOutput = tool == "symlink" || tool == "mkdir";
+    bool haveOutput = !c->outputs.empty();
+    if (tool == "symlink" && !haveOutput) o += "sig=none";
+    else {
+      uint64_t a = c->getSignature().value, b = c->getSignature().value;
+      o += "sig=" + (a == b ? hex64(a) : std::string("unstable"));
+    }
+    o += " in=" + names(c->inputs) + " out=" + names(c->outputs);
+    o += std::string(" repair=") + (c->repairViaOwnershipAnalysis ? "1" : "0");
+    SmallString<256> sd, vd;
+    c->getShortDescription(sd);
+    o += " short=" + vh::hexEncode(sd.str().str());
+    if (tool == "swift-compiler" || (needsOutput && !haveOutput)) o += " verbose=?";
+    else { c->getVerboseDescription(vd); o += " verbose=" + vh::hexEncode(vd.str().str()); }
+    bool external = tool != "symlink" && tool != "stale-file-removal";
+    if (external) {
+      auto* e = static_cast<ExternalCommand*>(c);
+      o += " desc=" + vh::hexEncode(e->description);
+      o += std::string(" ami=") + (e->allowMissingInputs ? "1" : "0") + " amo=" + (e->allowModifiedOutputs ? "1" : "0") +
+           " aood=" + (e->alwaysOutOfDate ? "1" : "0");
+    }
+    if (tool == "shell") {
+      auto* sc = static_cast<ShellCommand*>(c);
+      o += " args=" + strs(sc->getArgs());
+      std::vector<std::string> kv;
+      for (auto& p : sc->getEnv()) kv.push_back(vh::hexEncode(p.first.str()) + ":" + vh::hexEncode(p.second.str()));
+      std::string e = ".";
+      if (!kv.empty()) { e.clear(); for (size_t i = 0; i < kv.size(); i++) { if (i) e += ","; e += kv[i]; } }
+      o += " env=" + e;
+      o += " deps=" + strs(sc->depsPaths) + " style=" + std::to_string(int(sc->depsStyle));
+      o += std::string(" inh=") + (sc->getInheritEnv() ? "1" : "0") + " csi=" + (sc->canSafelyInterrupt ? "1" : "0");
+      o += " sigdata=" + vh::hexEncode(sc->signatureData) + " wd=" + vh::hexEncode(sc->workingDirectory);
+      o += std::string(" ce=") + (sc->controlEnabled ? "1" : "0");
+    }
+    obs = o;
+  }
+};
+
+std::string renderConfigure(const std::vector<std::string>& f, std::string& name, std::string& err) {
+  if (f.size() < 3) { err = "bad-op"; return ""; }
+  name = vh::hexDecode(f[2]);
+  std::string y = "client:\n  name: mock\n\ncommands:\n  " + yq(name) + ":\n    tool: " + f[1] + "\n";
+  for (size_t i = 3; i < f.size(); i++) {
+    const std::string& e = f[i];
+    auto eq = e.find('=');
+    if (eq == std::string::npos || e.size() < 2) { err = "bad-op"; return ""; }
+    std::string head = e.substr(0, eq), val = e.substr(eq + 1);
+    if (head == "i") y += "    inputs: " + ylist(vh::hexList(val)) + "\n";
+    else if (head == "o") y += "    outputs: " + ylist(vh::hexList(val)) + "\n";
+    else if (head == "d") y += "    description: " + yq(vh::hexDecode(val)) + "\n";
+    else if (head.size() > 2 && head[1] == ':') {
+      std::string key = vh::hexDecode(head.substr(2));
+      if (head[0] == 's') y += "    " + yq(key) + ": " + yq(vh::hexDecode(val)) + "\n";
+      else if (head[0] == 'l') y += "    " + yq(key) + ": " + ylist(vh::hexList(val)) + "\n";
+      else if (head[0] == 'm') {
+        y += "    " + yq(key) + ": {";
+        bool first = true;
+        if (val != ".") for (auto& kv : vh::split(val, ',')) {
+          auto c = kv.find(':');
+          if (c == std::string::npos) { err = "bad-op"; return ""; }
+          if (!first) y += ", ";
+          first = false;
+          y += yq(vh::hexDecode(kv.substr(0, c))) + ": " + yq(vh::hexDecode(kv.substr(c + 1)));
+        }
+        y += "}\n";
+      } else { err = "bad-op"; return ""; }
+    } else { err = "bad-op"; return ""; }
+  }
+  return y;
+}
+
+void mode_configure(bool showYaml) {
+  std::string line;
+  unsetenv("AR");                 // ArchiveShellCommand::getArgs() consults it
+  while (std::getline(std::cin, line)) {
+    auto f = vh::split(line);
+    std::string name, err;
+    std::string yaml = renderConfigure(f, name, err);
+    if (!err.empty()) { std::cout << err << "\n"; continue; }
+    if (showYaml) { std::cout << yaml << "---\n"; continue; }
+    std::string cwd = vh::hexDecode(f[0]);
+    if (!cwd.empty() && chdir(cwd.c_str()) != 0) { std::cout << "bad-cwd\n"; continue; }
+    OneFileFS fs;
+    fs.path = "/vc09/build.llbuild";
+    fs.contents = yaml;
+    std::string out;
+    {
+      ObsDelegate d;
+      d.wanted = name;
+      d.tool = f[1];
+      BuildSystem system(d, std::unique_ptr<FileSystem>(new RefFS(fs)));
+      bool ok = system.loadDescription(fs.path);
+      // a symlink command without a declared output cannot be asked for its signature (outputs[0] is read out of bounds,
+      // also by the engine when it creates the command's rule): protocol rule, decided on the INPUT LINE by both sides -
+      // a symlink definition is observed only if one of its `o=` entries has exactly one name
+      bool observable = f[1] != "symlink";
+      for (size_t i = 3; i < f.size(); i++)
+        if (f[i].rfind("o=", 0) == 0 && vh::hexList(f[i].substr(2)).size() == 1) observable = true;
+      if (ok && !observable) out = "loaded unobservable";
+      else if (ok) {
+        system.build(BuildKey::makeCommand(name));
+        out = d.seen ? "loaded " + d.obs : "not-prepared";
+      } else {
+        out = "aborted";
+        // BuildSystem::loadDescription adds its own final message
+        if (!d.errs.empty() && d.errs.back() == "unable to load build file") d.errs.pop_back();
+      }
+      out += " diags=" + vh::hexListEncode(d.errs);
+    }
+    std::cout << out << "\n";
+  }
+}
+
 // raw hashing primitives, for the bit-exact correspondence of the Lean re-implementation
 //   hashstr <hex>            llvm::hash_value(StringRef) and CommandSignature().combine(std::string) value
 void mode_hashstr() {
@@ -329,6 +496,8 @@ int main(int argc, char** argv) {
   if (mode == "sig") mode_sig(false);
   else if (mode == "yaml") mode_sig(true);
   else if (mode == "hashstr") mode_hashstr();
+  else if (mode == "configure") mode_configure(false);
+  else if (mode == "configure-yaml") mode_configure(true);
   else { fprintf(stderr, "unknown mode %s\n", argv[1]); return 2; }
   return 0;
 }
